@@ -1581,6 +1581,85 @@ func genFlashImage(r *Rng) []byte {
 	return img
 }
 
+// opaqueVol builds a volume of a file system fiano knows by name but does not parse (FFS1, EVSA/NVAR
+// NVRAM, Apple boot, PFH1/2: the entries of uefi.FVGUIDs other than FFS2/FFS3; GUID literals of
+// uefigen) or of an unknown one, whose body after the header is NOT erased: arbitrary bytes.
+func opaqueVol(r *Rng, blockSize uint32) []byte {
+	v := &uefigen.Vol{Attrs: 0x4FEFF, Revision: byte(r.Pick(1, 2)), BlockSize: blockSize, FreeSpace: r.Pick(24, 64, 200, 500)}
+	if r.Chance(5, 6) {
+		v.FSGUID = uefigen.KnownUnparsedFS[r.Intn(len(uefigen.KnownUnparsedFS))]
+		if r.Chance(1, 3) {
+			v.FSGUID = uefigen.KnownUnparsedFS[0] // FFS1
+		}
+	} else {
+		copy(v.FSGUID[:], r.Bytes(16))
+	}
+	if r.Chance(1, 4) {
+		v.ExtHeader = true
+		copy(v.ExtName[:], r.Bytes(16))
+	}
+	b, _ := uefigen.EmitVol(v)
+	hdr := 72
+	if v.ExtHeader {
+		hdr = 96
+	}
+	for i := hdr; i < len(b); i++ {
+		c := byte(1 + r.Intn(254)) // never 0xFF, never 0
+		if c == '_' {
+			c = '-'
+		}
+		b[i] = c
+	}
+	return b
+}
+
+// genOpaqueImage: a region with opaque volumes (see opaqueVol) at the top level and nested in an
+// FV-image section, each followed by further content, so that a volume written short to the directory
+// shows in the reassembled image.
+func genOpaqueImage(r *Rng) []byte {
+	o := uefigen.Opts{MaxDepth: 0, Strings: true, Alignments: false}
+	var out []byte
+	if r.Bool() {
+		out = append(out, genPadFF(r, 8*r.Range(1, 4))...)
+	}
+	host := func() []byte {
+		v := uefigen.GenVol(r, o, 0)
+		v.FSGUID = uefigen.FFS2
+		if len(v.Files) == 0 {
+			v.Files = append(v.Files, uefigen.GenFile(r, o, 0))
+		}
+		// a sectioned file carrying a nested opaque volume, between other sections
+		f := &uefigen.File{GUID: uefigen.GenGUID(r), Type: 11, Attr: 0x40, State: 0xF8}
+		f.Secs = append(f.Secs, uefigen.GenSec(r, o, 0))
+		f.Secs = append(f.Secs, &uefigen.Sec{Type: 0x17, Body: opaqueVol(r, uint32(r.Pick(8, 16)))})
+		f.Secs = append(f.Secs, &uefigen.Sec{Type: 0x19, Body: r.Bytes(r.Range(1, 20))})
+		k := r.Intn(len(v.Files) + 1)
+		v.Files = append(v.Files[:k], append([]*uefigen.File{f}, v.Files[k:]...)...)
+		b, _ := uefigen.EmitVol(v)
+		return b
+	}
+	switch r.Intn(3) {
+	case 0:
+		out = append(out, opaqueVol(r, 64)...)
+		out = append(out, host()...)
+	case 1:
+		out = append(out, host()...)
+		out = append(out, opaqueVol(r, 64)...)
+		tail := r.Bytes(8 * r.Range(1, 6))
+		for i := range tail {
+			if tail[i] == '_' || tail[i] == 0xFF {
+				tail[i] = 0x11
+			}
+		}
+		out = append(out, tail...)
+	default:
+		out = append(out, opaqueVol(r, 64)...)
+		out = append(out, opaqueVol(r, 256)...)
+		out = append(out, host()...)
+	}
+	return out
+}
+
 func genPadFF(r *Rng, n int) []byte {
 	b := make([]byte, n)
 	for i := range b {
@@ -1647,6 +1726,25 @@ func gen(r *Rng, tier string, emit Emit) {
 			emitTables(emit, b)
 			emit("C", "xpaths", H(b))
 			emit("C", "dirsave", H(b))
+		}
+	}
+	// opaque volumes of the file systems fiano names but does not parse, with non-erased bodies, at the
+	// top level and nested, followed by further elements
+	nop := 16
+	if tier == "thorough" {
+		nop = 400
+	}
+	for i := 0; i < nop; i++ {
+		img := genOpaqueImage(r.Fork(uint64(5000000 + i)))
+		if len(img) == 0 || len(img) > 60000 {
+			continue
+		}
+		emit("P", "p_roundtrip", H(img), "id")
+		emit("P", "p_paths", H(img))
+		if len(img) <= 12000 {
+			emitTables(emit, img)
+			emit("C", "xpaths", H(img))
+			emit("C", "dirsave", H(img))
 		}
 	}
 	// Intel flash images with 2-3 ranges not covered by any region entry (implementation oracles only:
